@@ -46,29 +46,59 @@ impl LibCase {
         let o = exec(ctx, dir, &cmd)?;
         rep.procs = 1;
         rep.syscalls = o.ent.len() as u64;
-        rep.fault_free = !self.entropy.iter().any(|r| matches!(r, EntResp::Fail { .. }));
+        rep.fault_free = !self
+            .entropy
+            .iter()
+            .any(|r| matches!(r, EntResp::Fail { .. }));
         let Some(h) = &o.e2 else {
             if o.status == Status::Timeout {
                 return Err(HarnessError("library scenario did not finish: a blocking primitive the simulator does not control is held across a scheduling point".into()));
             }
-            return Err(HarnessError(format!("library scenario left no history: {:?}", o.status)));
+            return Err(HarnessError(format!(
+                "library scenario left no history: {:?}",
+                o.status
+            )));
         };
         rep.sched_steps = h.steps as u64;
-        let label = format!("{} tasks x {} x Mnemonic::random(English, {})", self.tasks, self.calls, self.length);
+        let label = format!(
+            "{} tasks x {} x Mnemonic::random(English, {})",
+            self.tasks, self.calls, self.length
+        );
         for p in &h.panics {
-            rep.violate("C17", "panic", panic_fingerprint(&p.loc, &p.msg), format!("[E2 lib] {label}: task {} panicked at {}: {}", p.task, p.loc, p.msg));
+            rep.violate(
+                "C17",
+                "panic",
+                panic_fingerprint(&p.loc, &p.msg),
+                format!(
+                    "[E2 lib] {label}: task {} panicked at {}: {}",
+                    p.task, p.loc, p.msg
+                ),
+            );
         }
         if h.end != "exit" {
-            rep.violate("C17", "hang", format!("lib|{}", h.end), format!("[E2 lib] {label}: ended with {} {}", h.end, h.detail));
+            rep.violate(
+                "C17",
+                "hang",
+                format!("lib|{}", h.end),
+                format!("[E2 lib] {label}: ended with {} {}", h.end, h.detail),
+            );
         }
         let ent_len = rm::entropy_len(self.length as usize);
         // interleaving probe: some request of task A lies between two requests of task B
         let order: Vec<u32> = h.entropy.iter().map(|e| e.task).collect();
-        let interleaved = order.windows(3).any(|w| w[0] == w[2] && w[0] != w[1]) || (self.calls == 1 && h.preemptions > 0);
+        let interleaved = order.windows(3).any(|w| w[0] == w[2] && w[0] != w[1])
+            || (self.calls == 1 && h.preemptions > 0);
         rep.probe("lib_generations_interleaved", interleaved);
         let fired_fail = h.entropy.iter().filter(|e| !e.ok).count() as u64;
         rep.probe("lib_failure_delivered", fired_fail > 0);
-        rep.fault("entropy_failure", self.entropy.iter().filter(|r| matches!(r, EntResp::Fail { .. })).count() as u64, fired_fail);
+        rep.fault(
+            "entropy_failure",
+            self.entropy
+                .iter()
+                .filter(|r| matches!(r, EntResp::Fail { .. }))
+                .count() as u64,
+            fired_fail,
+        );
         rep.fault("schedule_preemption", 1, h.preemptions as u64);
         rep.nontrivial = h.preemptions > 0 || fired_fail > 0;
 
@@ -93,12 +123,29 @@ impl LibCase {
                     }
                     for (ev, r) in evs.iter().zip(res.iter()) {
                         if ev.len as usize != el {
-                            rep.violate("C12", "request-size", "lib|reqlen", format!("[E2 lib] {label}: task {t} requested {} bytes, ENT is {el}", ev.len));
+                            rep.violate(
+                                "C12",
+                                "request-size",
+                                "lib|reqlen",
+                                format!(
+                                    "[E2 lib] {label}: task {t} requested {} bytes, ENT is {el}",
+                                    ev.len
+                                ),
+                            );
                         }
                         if ev.ok {
-                            let want = rm::bip39_encode(&hex::decode(&ev.bytes).unwrap_or_default());
+                            let want =
+                                rm::bip39_encode(&hex::decode(&ev.bytes).unwrap_or_default());
                             if !r.ok || Some(&r.text) != want.as_ref() {
-                                let whose = rm::bip39_decode(&r.text).ok().map(hex::encode).and_then(|e| h.entropy.iter().find(|x| x.ok && x.bytes == e).map(|x| x.task));
+                                let whose = rm::bip39_decode(&r.text)
+                                    .ok()
+                                    .map(hex::encode)
+                                    .and_then(|e| {
+                                        h.entropy
+                                            .iter()
+                                            .find(|x| x.ok && x.bytes == e)
+                                            .map(|x| x.task)
+                                    });
                                 rep.violate(
                                     "C12",
                                     "entropy-not-from-own-request",
@@ -138,7 +185,9 @@ impl LibCase {
         rep.shape = sh.finish();
         rep.event_hash = o.event_hash();
         rep.explicit_choices = Some(h.choices.clone());
-        rep.schedule_id = Some(crate::prng::fnv1a(format!("{}|{:?}", h.sched_hash, h.choices).as_bytes()));
+        rep.schedule_id = Some(crate::prng::fnv1a(
+            format!("{}|{:?}", h.sched_hash, h.choices).as_bytes(),
+        ));
         rep.history = json!({
             "engine": "E2 (library scenario)", "scenario": label,
             "sched": {"policy": self.sched.policy, "seed": self.sched.seed},
@@ -160,7 +209,13 @@ impl LibCase {
 
     pub fn reseeded(&self, k: u64) -> Option<LibCase> {
         let mut c = self.clone();
-        c.sched = SchedSpec { policy: "random".into(), seed: 0x11b_0000 + k, param: 0, horizon: 64, trace: vec![] };
+        c.sched = SchedSpec {
+            policy: "random".into(),
+            seed: 0x11b_0000 + k,
+            param: 0,
+            horizon: 64,
+            trace: vec![],
+        };
         Some(c)
     }
 
@@ -189,7 +244,11 @@ impl LibCase {
         for i in 0..self.entropy.len() {
             if matches!(self.entropy[i], EntResp::Fail { .. }) {
                 let mut c = self.clone();
-                c.entropy[i] = EntResp::ok(&vec![i as u8; rm::entropy_len(self.length as usize).unwrap_or(16)]);
+                c.entropy[i] = EntResp::ok(&vec![
+                    i as u8;
+                    rm::entropy_len(self.length as usize)
+                        .unwrap_or(16)
+                ]);
                 out.push(c);
             }
         }
@@ -217,14 +276,31 @@ impl LibCase {
 pub fn gen_lib_case(rng: &mut Rng) -> LibCase {
     let tasks = rng.range(2, 4) as u32;
     let calls = rng.range(1, 3) as u32;
-    let length = if rng.chance(5, 6) { *rng.pick(&[12u32, 15, 18, 21, 24]) } else { rng.range(0, 40) as u32 };
+    let length = if rng.chance(5, 6) {
+        *rng.pick(&[12u32, 15, 18, 21, 24])
+    } else {
+        rng.range(0, 40) as u32
+    };
     let el = rm::entropy_len(length as usize).unwrap_or(16);
     let n = (tasks * calls) as usize;
     let mut entropy: Vec<EntResp> = (0..n).map(|_| EntResp::ok(&rng.bytes(el))).collect();
     if rng.chance(1, 3) {
         let i = rng.usize_below(n);
-        entropy[i] = EntResp::Fail { errno: 5, partial: if rng.coin() { hex::encode(rng.bytes(el)) } else { String::new() } };
+        entropy[i] = EntResp::Fail {
+            errno: 5,
+            partial: if rng.coin() {
+                hex::encode(rng.bytes(el))
+            } else {
+                String::new()
+            },
+        };
     }
     let sched = super::newcase::gen_sched(rng, tasks as usize, n);
-    LibCase { tasks, length, calls, entropy, sched }
+    LibCase {
+        tasks,
+        length,
+        calls,
+        entropy,
+        sched,
+    }
 }
